@@ -163,9 +163,16 @@ def e2e_scenario(bins, idx, ntargets, rng, kinds=None, failing=False, listener=F
     less the second time; the stored log is the one of the execution that ran last."""
     names = runlib.NAMES
     targets = [{"path": names[i % len(names)] + ("" if i < len(names) else str(i))} for i in range(ntargets)]
-    fx = fixture.Fixture(bins, targets)
+    # every fourth scenario: the run's slot was used before by a run of ANOTHER command over the same targets
+    # (max_retained_runs = 1): nothing of that run may show up in this run's logs
+    prelude = (idx % 4 == 2)
+    fx = fixture.Fixture(bins, targets, max_retained_runs=1 if prelude else None)
     try:
         written = {}
+        if prelude:
+            for t in targets:
+                fx.add_cmd(t["path"], "prelude", [{"op": "out", "text": "".join("prelude <%s> out %d\n" % (t["path"], i) for i in range(200))},
+                                                   {"op": "out", "stream": "stderr", "text": "prelude <%s> err\n" % t["path"]}, {"op": "exit", "code": 0}], ext=".sh")
         for t in targets:
             steps = []
             for stream in ("stdout", "stderr"):
@@ -210,6 +217,8 @@ def e2e_scenario(bins, idx, ntargets, rng, kinds=None, failing=False, listener=F
             lst = taillib.Listener(fx, [{"stdout": True, "stderr": True}, {"stdout": True}, {"stderr": True, "targets": [targets[0]["path"]]}][(idx // 2) % 3])
             if not lst.ready:
                 raise vlib.ToolError("listener did not come up")
+        if prelude:
+            fx.monorail(["run", "-c", "prelude"], timeout=240)
         res = fx.monorail(["run", "-c", "build"] + (["build"] if repeat else []), timeout=240)
         if lst is not None:
             lst.kill()
